@@ -230,7 +230,10 @@ func (b *DirectoryBackend) osPath(path string) (string, error) {
 	fullPath := filepath.Join(b.root, pathSeparators.Replace(path))
 	// This is conservative check that "fullPath" is child of "b.root",
 	// catching any funny "../../../.." that we might accidentally get.
-	if fullPath != filepath.Clean(fullPath) {
+	// (Join already cleans the path, so comparing it with its cleaned self can never fire:
+	// look at where the path ends up relative to the root instead.)
+	rel, err := filepath.Rel(b.root, fullPath)
+	if err != nil || rel == ".." || strings.HasPrefix(rel, ".."+string(filepath.Separator)) {
 		b.log.WithField("path", path).Warn("invalid key path used")
 		return "", api.ErrInvalidPath
 	}
